@@ -17,7 +17,7 @@ for c, d in C19_CASES.items():
 # ---------------------------------------------------------------- intrusive free lists, one inductive step per operation
 FL_OPS = {1: 'allocate', 2: 'deallocate', 3: 'allocate_n', 4: 'deallocate_n', 5: 'insert', 6: 'ctor',
           7: 'move_ctor', 8: 'move_assign', 9: 'swap', 10: 'roundtrip_n', 11: 'double_free'}
-FL_PROPS = {1: ['C01', 'C02', 'C16', 'C17'], 2: ['C01', 'C04', 'C16', 'C17'], 3: ['C01', 'C02', 'C17'], 4: ['C01', 'C04', 'C16'],
+FL_PROPS = {1: ['C01', 'C02', 'C16', 'C17'], 2: ['C01', 'C04', 'C16', 'C17'], 3: ['C01', 'C02', 'C04', 'C17'], 4: ['C01', 'C04', 'C16'],
             5: ['C01', 'C02', 'C18'], 6: ['C01', 'C18'], 7: ['C12'], 8: ['C12'], 9: ['C12'], 10: ['C04', 'C18'], 11: ['C16']}
 def ns_split(n): return ('ns%d' % n, n, ['NS_MIN=%d' % n, 'NS_MAX=%d' % n])
 NS_SPLITS_QUICK = [ns_split(8), ns_split(12)]
@@ -50,6 +50,12 @@ for kind, kname in ((1, 'free_memory_list'), (2, 'ordered_free_memory_list')):
     fl_jobs(kind, kname, 10, 'release', 'thorough', NS_SPLITS_QUICK + NS_SPLITS_MORE, timeout=1800)
     fl_jobs(kind, kname, 5, 'release', 'quick', NS_SPLITS_QUICK, nb=2, nb2=2)
     fl_jobs(kind, kname, 5, 'baseline', 'thorough', NS_SPLITS_QUICK + NS_SPLITS_MORE, nb=2, nb2=2, timeout=900)
+# fragmented lists: a run behind a gap needs at least 4 slots
+for kind, kname in ((1, 'free_memory_list'), (2, 'ordered_free_memory_list')):
+    fl_jobs(kind, kname, 3, 'release', 'quick', NS_SPLITS_QUICK[:1], nb=4, lays=((0, 0),))
+    fl_jobs(kind, kname, 4, 'release', 'quick', NS_SPLITS_QUICK[:1], nb=4, lays=((1, 0),))
+    fl_jobs(kind, kname, 3, 'release', 'thorough', NS_SPLITS_QUICK + NS_SPLITS_MORE, nb=5, timeout=1800)
+    fl_jobs(kind, kname, 4, 'release', 'thorough', NS_SPLITS_QUICK + NS_SPLITS_MORE, nb=5, timeout=1800)
 # double free detection exists only for the ordered list in double-dealloc-check builds
 fl_jobs(2, 'ordered_free_memory_list', 11, 'check', 'quick', NS_SPLITS_QUICK, extra_def=['HANDLER_STOPS'])
 fl_jobs(2, 'ordered_free_memory_list', 11, 'debug8', 'thorough', NS_SPLITS_QUICK + NS_SPLITS_MORE, extra_def=['HANDLER_STOPS'], timeout=900)
@@ -123,3 +129,32 @@ for n in (1, 2, 3, 4, 5):
         it_jobs(n, op, 'release', 'thorough', bmax=96, smax=40, timeout=1200)
         it_jobs(n, op, 'debug8', 'thorough', bmax=96, smax=24, timeout=1800)
         if n in (2, 4): it_jobs(n, op, 'baseline', 'thorough', timeout=1200)
+
+# ---------------------------------------------------------------- memory_stack / arena steps
+MS_OPS = {1: 'ctor', 2: 'allocate', 3: 'try_allocate', 4: 'unwind', 5: 'shrink_to_fit', 6: 'dtor', 7: 'move_ctor', 8: 'move_assign',
+          9: 'script', 10: 'markers', 11: 'bad_unwind', 12: 'traits'}
+MS_PROPS = {1: ['C01', 'C03', 'C05', 'C18'], 2: ['C01', 'C02', 'C03', 'C05', 'C17', 'C18'], 3: ['C01', 'C02', 'C03'], 4: ['C06', 'C05', 'C16', 'C01'],
+            5: ['C05'], 6: ['C05', 'C15'], 7: ['C12', 'C05', 'C15'], 8: ['C12', 'C05'], 9: ['C06'], 10: ['C06'], 11: ['C16'], 12: ['C15', 'C18', 'C02']}
+def ms_jobs(op, config, tier, ku=2, kc=1, slot=80, smax=24, timeout=400, mem=8):
+    heap = (2 * 64 + 3 * 24 + 8 + (ku + kc + 1) * slot + 15) // 16 * 16
+    add('ms-%s-%s-k%d%d-s%d' % (MS_OPS[op], config, ku, kc, slot), MS_PROPS[op], 'stack', 'stack_step.c', config=config,
+        defines=['OP=%d' % op, 'KU=%d' % ku, 'KC=%d' % kc, 'SLOT=%d' % slot, 'SMAX=%d' % smax, 'MAXB=%d' % (ku + kc + 2), 'HEAP_SIZE=%d' % heap],
+        unwind=ku + kc + 4, timeout=timeout, tier=tier, mem_gb=mem,
+        desc='memory_stack<growing_block_allocator<hook>>::%s from an arbitrary valid state' % MS_OPS[op],
+        bounds='<=%d used + <=%d cached blocks in %d symbolic slots (any address order), block sizes 24..%d, bump pointer anywhere, size <= %d, alignment 1..64, upstream may fail at every call' % (ku, kc, ku + kc + 1, slot, smax))
+for op in (1, 2, 3, 4, 5, 6, 7, 10, 12):
+    ms_jobs(op, 'release', 'quick')
+ms_jobs(8, 'release', 'quick', ku=1, kc=1, timeout=600)
+ms_jobs(9, 'release', 'quick', ku=1, kc=1, timeout=600)
+ms_jobs(11, 'check', 'quick')
+ms_jobs(4, 'check', 'quick')
+ms_jobs(6, 'baseline', 'quick')
+ms_jobs(12, 'baseline', 'quick')
+ms_jobs(2, 'baseline', 'quick', ku=1, kc=1, slot=48, smax=16, timeout=600)
+for op in range(1, 13):
+    if op != 11:
+        ms_jobs(op, 'baseline', 'thorough', timeout=3000, mem=24)
+        ms_jobs(op, 'release', 'thorough', ku=3, kc=2, timeout=3000, mem=24)
+ms_jobs(11, 'debug8', 'thorough', timeout=3000, mem=24)
+ms_jobs(2, 'debug8', 'thorough', timeout=3000, mem=24)
+ms_jobs(4, 'debug8', 'thorough', timeout=3000, mem=24)
